@@ -35,25 +35,29 @@ ASSUMPTIONS = [
 
 
 def _verify_one(args):
-    qual, src, timeout_ms = args
+    qual, src, timeout_ms, hints = args
     os.environ["VERIF_SRC"] = src
     from pyvc.frontend import Program
     from pyvc.verify import Verifier
     from contracts import registry
     try:
         prog = Program(src)
+        for _n, _p in registry.SIDE_MODULES.items():
+            prog.add_module(_n, _p)
         V = Verifier(prog, registry.SCHEMA, registry.CONTRACTS, registry.SPEC, timeout_ms=timeout_ms)
+        V.hints = hints
         return V.verify(qual)
     except Exception as e:  # never let an engine crash look like a verdict
         return {"function": qual, "results": {}, "error": "internal: %s\n%s" % (e, traceback.format_exc()), "paths": 0, "vacuity": []}
 
 
-def run_proofs(quals, src, timeout_ms, workers):
+def run_proofs(quals, src, timeout_ms, workers, hints=None):
     out = {}
+    hints = hints or {}
     if not quals:
         return out
     with ProcessPoolExecutor(max_workers=min(workers, len(quals))) as ex:
-        futs = {ex.submit(_verify_one, (q, src, timeout_ms)): q for q in quals}
+        futs = {ex.submit(_verify_one, (q, src, timeout_ms, hints)): q for q in quals}
         for f in as_completed(futs):
             q = futs[f]
             try:
@@ -112,12 +116,15 @@ def main():
     from checks import props
     from contracts import registry
     cfg = props.PROPS[prop]
-    workers = int(os.environ.get("VERIF_WORKERS", "14"))
-    timeout_ms = 6000 if tier == "quick" else 20000
+    workers = int(os.environ.get("VERIF_WORKERS", "6"))
+    os.environ.setdefault("VERIF_INNER", "3")
+    timeout_ms = 8000 if tier == "quick" else 30000
 
     quals = sorted(q for q, K in registry.CONTRACTS.items() if prop in K.props and not K.trusted)
     trusted = sorted(q for q, K in registry.CONTRACTS.items() if prop in K.props and K.trusted)
-    proofs = run_proofs(quals, src, timeout_ms, workers)
+    ledger = json.load(open(LEDGER)) if os.path.exists(LEDGER) else {}
+    hints = {oid: v.get("strategy") for oid, v in ledger.get(prop, {}).items() if isinstance(v, dict) and v.get("strategy") not in (None, "plain-fast")}
+    proofs = run_proofs(quals, src, timeout_ms, workers, hints)
     static_res = {}
     for fn in cfg.get("static", []):
         try:
@@ -139,10 +146,11 @@ def main():
                 obl["%s/vacuity:%s" % (q.replace("measured.", ""), v["combo"])] = {"status": "undecided", "note": "contradictory requires", "ms": 0, "function": q}
     obl.update(static_res)
 
-    ledger = json.load(open(LEDGER)) if os.path.exists(LEDGER) else {}
-    base = ledger.get(prop, {})
+    base = {oid: (v["status"] if isinstance(v, dict) else v) for oid, v in ledger.get(prop, {}).items()}
     if a.update_ledger:
-        ledger[prop] = {oid: r["status"] for oid, r in sorted(obl.items())}
+        prev = ledger.get(prop, {})
+        ledger[prop] = {oid: {"status": r["status"], "strategy": r.get("strategy") or (prev.get(oid, {}).get("strategy") if isinstance(prev.get(oid), dict) else None)}
+                        for oid, r in sorted(obl.items())}
         json.dump(ledger, open(LEDGER, "w"), indent=1, sort_keys=True)
         print("ledger updated for %s: %d obligations, %d discharged" % (prop, len(obl), sum(1 for r in obl.values() if r["status"] == "discharged")))
 
